@@ -555,7 +555,12 @@ def oracle_ellipse(mon, pre, args, out):
         if ok:
             C = np.asarray(cn[0], dtype=float)
             qc = ellipse_q(C, args['center'], args['a'], args['b'], args['theta'], args['log'])
-            ok = bool(np.all(np.abs(qc - 1) < 1e-8))
+            # (contour coordinates are doubles: a point cannot lie closer to the ellipse than one ulp of its own magnitude,
+            # which in units of the semi-axes is ulp(|coordinate|) / min(a, b))
+            with np.errstate(all='ignore'):
+                mag = float(np.max(np.abs(np.log10(C) if args['log'] else C))) if C.size else 0.0
+            tolc = 1e-8 + 32 * np.finfo(float).eps * mag / max(min(abs(args['a']), abs(args['b'])), 1e-300)
+            ok = bool(np.all(np.abs(qc - 1) < tolc))
             # full turn: angles of the contour points in the ellipse frame sweep 2*pi
             L = np.longdouble
             Cx = np.log10(C) if args['log'] else C
